@@ -135,3 +135,45 @@ static int ok_table_readonly[3] = { 1, 2, 3 };
 int ok_tables(int i) {
 	return table_ok[i % 3] + ok_table_readonly[i % 3];
 }
+
+/* ---- INSTALL-MUST ---- */
+void ok_install__fp_param_set(int param) {
+	bn_t p;
+	bn_null(p);
+	RLC_TRY {
+		bn_new(p);
+		core_get()->fp_id = param;
+		switch (param) {
+			case 1:
+				bn_set_dig(p, 7);
+				fp_prime_set_dense(p);
+				break;
+			default:
+				RLC_THROW(ERR_NO_VALID);
+				break;
+		}
+	} RLC_CATCH_ANY {
+		RLC_THROW(ERR_CAUGHT);
+	} RLC_FINALLY {
+		bn_free(p);
+	}
+}
+
+/* the installation is skipped when the identifier matches, but the dense installer never writes it */
+void bad_install_must__stale__fp_param_set(int param) {
+	bn_t p;
+	bn_null(p);
+	if (param != 0 && param == fp_param_get()) {
+		return;
+	}
+	RLC_TRY {
+		bn_new(p);
+		core_get()->fp_id = param;
+		bn_set_dig(p, 7);
+		fp_prime_set_dense(p);
+	} RLC_CATCH_ANY {
+		RLC_THROW(ERR_CAUGHT);
+	} RLC_FINALLY {
+		bn_free(p);
+	}
+}
